@@ -34,7 +34,7 @@ type FuncResult struct {
 
 func (w *Workspace) newGen(fn *ssa.Function, ct *Contract) *Gen {
 	g := &Gen{w: w, sorts: newSorts(), top: fn, contract: ct, declared: map[string]bool{}, trusted: map[string]bool{}, unmod: map[string]bool{},
-		assumes: map[string]bool{}, inlined: map[string]bool{}, globals: map[*ssa.Global]*Cell{}, uses: map[string]bool{}, ufDecl: map[string]string{}, arrElems: map[string]map[string]Val{}, worldSeen: map[string]bool{}}
+		assumes: map[string]bool{}, inlined: map[string]bool{}, globals: map[*ssa.Global]*Cell{}, uses: map[string]bool{}, ufDecl: map[string]string{}, arrElems: map[string]map[string]Val{}, worldSeen: map[string]bool{}, hashState: map[string]*Cell{}}
 	g.entry = &State{cells: map[*Cell]Val{}, heaps: map[string]string{}}
 	g.concrete = ct != nil && ct.Concrete
 	stringsConcrete = g.concrete
@@ -133,6 +133,8 @@ func (g *Gen) lemma(ct *Contract) {
 				x.Func = o.Func
 			}
 		}
+		// later clauses of the lemma may use this one (assert-then-assume)
+		g.assume(t)
 	}
 	for _, e := range ct.Canary {
 		t := env.trBool(e.Expr)
